@@ -259,6 +259,36 @@ fn gen_hist_scs(rng: &mut Rng) -> Hist {
     Hist { wire_chunks, msgs, csids: csids_all, schedule: "with-chunk-size-changes", cs: cs0 }
 }
 
+/// Three 9 MiB messages in flight at once (27 MiB of unfinished data, more than one maximum-size
+/// message), chunk size 1 MiB, chunks in round-robin order.
+fn gen_hist_huge(rng: &mut Rng) -> Hist {
+    let mut enc = Encoder::new();
+    let cs = 1usize << 20;
+    enc.chunk_size = cs;
+    let csids = [3u32, 64, 320];
+    let mut groups: Vec<Vec<Vec<u8>>> = Vec::new();
+    let mut msgs = Vec::new();
+    for (j, csid) in csids.iter().enumerate() {
+        let len = 9 * (1usize << 20) + j * 77;
+        let a = rng.next();
+        let data: Vec<u8> = (0..len).map(|i| ((i as u64).wrapping_mul(0x9E37_79B9).wrapping_add(a) >> 13) as u8).collect();
+        let m = Msg { type_id: 9, msid: 1, ts: 1000 + j as u32, data };
+        let c = Choice { csid: *csid, form: CsidForm::Min, fmt: 0 };
+        groups.push(enc.encode(&m, &c));
+        msgs.push(m);
+    }
+    let mut wire_chunks = Vec::new();
+    let most = groups.iter().map(|g| g.len()).max().unwrap();
+    for i in 0..most {
+        for (j, g) in groups.iter().enumerate() {
+            if i < g.len() {
+                wire_chunks.push((j, g[i].clone()));
+            }
+        }
+    }
+    Hist { wire_chunks, msgs, csids: csids.to_vec(), schedule: "three-9-MiB-messages-round-robin", cs }
+}
+
 fn apply_scs(d: &mut ChunkDeserializer, m: &Msg) {
     if m.type_id == 1 && m.data.len() >= 4 {
         let v = u32::from_be_bytes([m.data[0], m.data[1], m.data[2], m.data[3]]) & 0x7FFF_FFFF;
@@ -266,18 +296,13 @@ fn apply_scs(d: &mut ChunkDeserializer, m: &Msg) {
     }
 }
 
-impl Check for C16 {
-    fn id(&self) -> &'static str {
-        "C16"
-    }
-    fn plan(&self, tier: Tier) -> Plan {
-        Plan::new(tier.pick(2_000_000, 60_000_000), tier.pick(30.0, 360.0))
-    }
-    fn selftest(&self) -> Result<(), String> {
-        chunk::selftest()
-    }
-    fn run_case(&self, _tier: Tier, _k: u64, rng: &mut Rng, out: &mut Out) {
-        let h = if rng.chance(1, 4) { gen_hist_scs(rng) } else { gen_hist(rng) };
+pub fn run_scs_history(rng: &mut Rng, out: &mut Out) {
+    let h = gen_hist_scs(rng);
+    run_hist(h, rng, out);
+}
+
+fn run_hist(h: Hist, rng: &mut Rng, out: &mut Out) {
+    {
         out.eval(1);
         let cs = h.cs;
         // expected deliveries by independent per-csid reassembly, and the first overlap point
@@ -389,8 +414,32 @@ impl Check for C16 {
         }
         out.count("histories_exact", 1);
     }
+}
+
+impl Check for C16 {
+    fn id(&self) -> &'static str {
+        "C16"
+    }
+    fn plan(&self, tier: Tier) -> Plan {
+        let mut p = Plan::new(tier.pick(2_000_000, 60_000_000), tier.pick(30.0, 360.0));
+        p.mandatory = 1;
+        p
+    }
+    fn selftest(&self) -> Result<(), String> {
+        chunk::selftest()
+    }
+    fn run_case(&self, _tier: Tier, k: u64, rng: &mut Rng, out: &mut Out) {
+        let h = if k == 0 {
+            gen_hist_huge(rng)
+        } else if rng.chance(1, 4) {
+            gen_hist_scs(rng)
+        } else {
+            gen_hist(rng)
+        };
+        run_hist(h, rng, out);
+    }
     fn rule(&self) -> String {
-        "1-3 rounds of 2-6 messages (1-9 chunks each, chunk sizes {1,2,5,16,128,200}) on distinct chunk stream ids of all three csid forms, encoded by the independent encoder and interleaved by a scheduler that keeps each message's chunks in order: no-overlap, audio-inside-video, round-robin, pairwise, random. A quarter of the histories instead interleave 1-4 messages (0-3000 bytes) per round with up to five in-band SetChunkSize messages on chunk stream 2 placed between chunks of the messages in flight (new sizes {1, 2, 5, 16, 100, 128, 200, 300, 1000, 4096, 65536, 2^31-1}: below, at and above the lengths in flight); every later chunk, also of messages already begun, is cut at the new size, and the deserializer is told the new size when the SetChunkSize message is delivered, as the sessions do. Payload bytes are tagged with their message index. Expected deliveries (each message when its last chunk arrives) come from independent per-csid reassembly. The stream is fed in two phases around the first overlap point (first chunk arriving on a csid while another csid has a partial message), each in 3 partitions. distinct = (messages, schedule, first-overlap offset bucket, chunk count).".to_string()
+        "1-3 rounds of 2-6 messages (1-9 chunks each, chunk sizes {1,2,5,16,128,200}) on distinct chunk stream ids of all three csid forms, encoded by the independent encoder and interleaved by a scheduler that keeps each message's chunks in order: no-overlap, audio-inside-video, round-robin, pairwise, random. Case 0: three 9 MiB messages in flight at once at chunk size 1 MiB, round-robin (more unfinished data than one maximum-size message). A quarter of the histories instead interleave 1-4 messages (0-3000 bytes) per round with up to five in-band SetChunkSize messages on chunk stream 2 placed between chunks of the messages in flight (new sizes {1, 2, 5, 16, 100, 128, 200, 300, 1000, 4096, 65536, 2^31-1}: below, at and above the lengths in flight); every later chunk, also of messages already begun, is cut at the new size, and the deserializer is told the new size when the SetChunkSize message is delivered, as the sessions do. Payload bytes are tagged with their message index. Expected deliveries (each message when its last chunk arrives) come from independent per-csid reassembly. The stream is fed in two phases around the first overlap point (first chunk arriving on a csid while another csid has a partial message), each in 3 partitions. distinct = (messages, schedule, first-overlap offset bucket, chunk count).".to_string()
     }
     fn assumptions(&self) -> Vec<String> {
         vec![
@@ -409,6 +458,7 @@ impl Check for C16 {
             "schedule_random".into(),
             "schedule_pairwise".into(),
             "schedule_with-chunk-size-changes".into(),
+            "schedule_three-9-MiB-messages-round-robin".into(),
         ]
     }
 }
